@@ -50,6 +50,12 @@ METHODS = {
     'instantiate': ('src_instantiate', [('delta', 'dict')], 'pat', True),
     'metavars': ('src_metavars', [], 'set', False),
 }
+# classmethods that are model primitives (their bodies use vars()/sorted()/cls and are not translated)
+PRIMS = {('Implies', 'unwrap'): ('unwrap_imp', 'optpair'), ('App', 'unwrap'): ('unwrap_app', 'optpair'),
+         ('EVar', 'deconstruct'): ('decon_evar', 'optN'), ('SVar', 'deconstruct'): ('decon_svar', 'optN'),
+         ('Symbol', 'deconstruct'): ('decon_sym', 'optN'), ('Exists', 'deconstruct'): ('decon_ex', 'optNpat'),
+         ('Mu', 'deconstruct'): ('decon_mu', 'optNpat')}
+UNOPT = {'optpair': 'pair', 'optN': 'N', 'optNpat': 'Npat', 'optdict': 'dict'}
 COQ_T = {'N': 'N', 'bool': 'bool', 'pat': 'ppat', 'dict': 'delta', 'set': 'list N'}
 
 
@@ -69,6 +75,8 @@ class Ctx:
         self.cls, self.classes, self.fuel = cls, classes, fuel
         self.env = {}          # python name -> (gallina term, type)
         self.n = 0
+        self.self_term = 'self'
+        self.refined = {}      # python name -> class (after isinstance), its fields are bound as s_<field>
 
     def fresh(self, base='c'):
         self.n += 1
@@ -78,6 +86,8 @@ class Ctx:
         c = Ctx(self.cls, self.classes, self.fuel)
         c.env = dict(self.env)
         c.n = self.n
+        c.self_term = self.self_term
+        c.refined = dict(self.refined)
         return c
 
 
@@ -102,7 +112,7 @@ def is_effect(ctx, e):
 def tr(ctx, e, k):
     if isinstance(e, ast.Name):
         if e.id == 'self':
-            return k('self', 'pat')
+            return k(ctx.self_term, 'pat')
         if e.id in ctx.env:
             return k(*ctx.env[e.id])
         die(e, 'unknown name')
@@ -119,11 +129,25 @@ def tr(ctx, e, k):
             if e.attr == 'var' and ctx.cls in ('ESubst', 'SSubst'):
                 die(e, 'the variable object of a substitution is only supported as self.var.name')
             return k('s_' + e.attr, FIELD_T[e.attr])
+        if isinstance(e.value, ast.Name) and e.value.id in ctx.refined:
+            cls = ctx.refined[e.value.id]
+            if e.attr not in CTORS[cls][1] or (e.attr == 'var' and cls in ('ESubst', 'SSubst')):
+                die(e, f'{cls} has no plain field {e.attr}')
+            return k('s_' + e.attr, FIELD_T[e.attr])
         if e.attr == 'conclusion':          # Proved.conclusion
             return tr(ctx, e.value, lambda t, ty: k(t, 'pat') if ty == 'proved' else die(e, 'conclusion of a non-Proved'))
         if e.attr == 'name':                # <EVar parameter>.name
             return tr(ctx, e.value, lambda t, ty: k(t, 'N') if ty == 'evarobj' else die(e, '.name of a non-variable'))
         die(e, 'attribute')
+    if isinstance(e, ast.IfExp):
+        def kt(tt, tyt):
+            if tyt != 'dict':
+                die(e, 'conditional expression on a non-dict condition')
+            return tr(ctx, e.body, lambda ta, tya: tr(ctx, e.orelse, lambda tb, tyb:
+                      k(f'(if negb (isnil {tt}) then {ta} else {tb})', tya) if tya == tyb else die(e, 'branches of different type')))
+        return tr(ctx, e.test, kt)
+    if isinstance(e, ast.Dict) and not e.keys:
+        return k('[]', 'dict')
     if isinstance(e, ast.UnaryOp) and isinstance(e.op, ast.Not):
         def kn(t, ty):
             if ty == 'dict':
@@ -140,9 +164,10 @@ def tr(ctx, e, k):
                     if tya == 'N' and tyb == 'N':
                         t = f'(N.eqb {ta} {tb})'
                         return k(t if isinstance(op, ast.Eq) else f'(negb {t})', 'bool')
-                    if tya == 'pat' and tyb == 'pat' and isinstance(op, ast.Eq):
+                    if tya == 'pat' and tyb == 'pat':
                         c = ctx.fresh()
-                        return f'bind (py_eq flags_current n {ta} {tb}) (fun {c} => {k(c, "bool")})'
+                        r = c if isinstance(op, ast.Eq) else f'(negb {c})'
+                        return f'bind (py_eq flags_current n {ta} {tb}) (fun {c} => {k(r, "bool")})'
                     die(e, f'comparison of {tya} and {tyb}')
                 return tr(ctx, b, k2)
             return tr(ctx, a, k1)
@@ -193,6 +218,14 @@ def tr(ctx, e, k):
                         else f'(if {acc} then {k("true", "bool")} else {rest})')
             return tr(ctx, vals[i], kv)
         return go(0, None)
+    if isinstance(e, ast.Subscript) and isinstance(e.slice, ast.Constant) and e.slice.value in (0, 1):
+        def kp(t, ty):
+            if ty == 'pair':
+                return k(f'({"fst" if e.slice.value == 0 else "snd"} {t})', 'pat')
+            if ty == 'Npat':
+                return k(f'({"fst" if e.slice.value == 0 else "snd"} {t})', 'N' if e.slice.value == 0 else 'pat')
+            die(e, f'index of {ty}')
+        return tr(ctx, e.value, kp)
     if isinstance(e, ast.Subscript):
         def k1(td, tyd):
             def k2(tk, tyk):
@@ -244,6 +277,17 @@ def tr(ctx, e, k):
                 return tr(ctx, e.args[0], lambda t, ty: k(t, 'dict') if ty == 'dict' else die(e, 'frozendict of non-dict'))
             if f.id == 'Proved' and len(e.args) == 1:
                 return tr(ctx, e.args[0], lambda t, ty: k(t, 'proved') if ty == 'pat' else die(e, 'Proved of non-pattern'))
+            if f.id == 'match_single' and len(e.args) == 3 and not e.keywords:
+                def a3(i, acc):
+                    if i == 3:
+                        call = 'src_match_single n ' + ' '.join(acc)
+                        if getattr(k, 'tail', False):
+                            return call
+                        c = ctx.fresh()
+                        return f'bind ({call}) (fun {c} => {k(c, "optdict")})'
+                    want = ['pat', 'pat', 'dict'][i]
+                    return tr(ctx, e.args[i], lambda t, ty: a3(i + 1, acc + [t]) if ty == want else die(e.args[i], f'{ty} for {want}'))
+                return a3(0, [])
             if f.id in CTORS:
                 ctor, fields = CTORS[f.id]
                 args = {}
@@ -276,6 +320,40 @@ def tr(ctx, e, k):
             die(e, 'function call')
         if isinstance(f, ast.Attribute):
             m = f.attr
+            if isinstance(f.value, ast.Name) and (f.value.id, m) in PRIMS and len(e.args) == 1 and not e.keywords:
+                prim, pty = PRIMS[(f.value.id, m)]
+
+                def kprim(t, ty):
+                    if ty != 'pat':
+                        die(e, 'primitive on a non-pattern')
+                    c = ctx.fresh()
+                    return f'bind ({prim} flags_current n {t}) (fun {c} => {k(c, pty)})'
+                return tr(ctx, e.args[0], kprim)
+            if isinstance(f.value, ast.Name) and f.value.id in ctx.refined and m in ('simplify', 'can_be_replaced_by'):
+                cls = ctx.refined[f.value.id]
+                body = ctx.classes[cls].get(m)
+                if body is None:
+                    die(e, f'{cls}.{m} not found')
+                params = [a.arg for a in body.args.args[1:]]
+                stmts = strip_doc(body.body)
+                if len(params) != len(e.args) or not (len(stmts) == 1 and isinstance(stmts[0], ast.Return)):
+                    die(e, 'inlined helper')
+                c2 = ctx.copy()
+                c2.cls = cls
+                c2.self_term = ctx.env[f.value.id][0]
+
+                def inl2(i):
+                    if i == len(params):
+                        c2.n = max(c2.n, ctx.n)
+                        r = tr(c2, stmts[0].value, k)
+                        ctx.n = c2.n
+                        return r
+
+                    def ka(t, ty):
+                        c2.env[params[i]] = (t, ty)
+                        return inl2(i + 1)
+                    return tr(ctx, e.args[i], ka)
+                return inl2(0)
             if m == 'union' and len(e.args) == 1:
                 return tr(ctx, f.value, lambda ta, tya: tr(ctx, e.args[0], lambda tb, tyb:
                           k(f'({ta} ++ {tb})', 'set') if tya == tyb == 'set' else die(e, 'union')))
@@ -460,6 +538,216 @@ def loop(ctx, acc, f, rest, rty):
     return f'(let {w} := fold_left {step} {it} [] in {block(ctx, rest, rty)})'
 
 
+# ---- module-level functions match_single / match (result: option (option delta)) ------------------------------------
+
+def fret(ctx, e):
+    if isinstance(e, ast.Constant) and e.value is None:
+        return 'Some None'
+
+    def k(t, ty):
+        if ty == 'dict':
+            return f'Some (Some {t})'
+        if ty == 'optdict':
+            return f'Some {t}'
+        raise SystemExit(f'pypattern translator: return of {ty} from a matching function')
+    k.tail = True
+    return tr(ctx, e, k)
+
+
+def none_tests(test):
+    """names of `(X is not None) and (Y is not None) ...`, or None"""
+    parts = test.values if isinstance(test, ast.BoolOp) and isinstance(test.op, ast.And) else [test]
+    out = []
+    for p in parts:
+        if (isinstance(p, ast.Compare) and len(p.ops) == 1 and isinstance(p.ops[0], ast.IsNot) and isinstance(p.left, ast.Name)
+                and isinstance(p.comparators[0], ast.Constant) and p.comparators[0].value is None):
+            out.append(p.left.id)
+        else:
+            return None
+    return out
+
+
+def walrus_tests(test):
+    parts = test.values if isinstance(test, ast.BoolOp) and isinstance(test.op, ast.And) else [test]
+    if all(isinstance(p, ast.NamedExpr) and isinstance(p.target, ast.Name) for p in parts):
+        return [(p.target.id, p.value) for p in parts]
+    return None
+
+
+def fblock(ctx, stmts, cont):
+    if not stmts:
+        if cont is None:
+            raise SystemExit('pypattern translator: control reaches the end of a matching function without return')
+        return cont(ctx)
+    s, rest = stmts[0], stmts[1:]
+
+    def after(c):
+        return fblock(c, rest, cont)
+    if isinstance(s, ast.Expr) and isinstance(s.value, ast.Constant):
+        return after(ctx)
+    if isinstance(s, ast.AnnAssign) and s.value is None:
+        return after(ctx)
+    if isinstance(s, ast.Return):
+        if s.value is None:
+            die(s, 'bare return')
+        return fret(ctx, s.value)
+    if isinstance(s, (ast.Assign, ast.AnnAssign)):
+        tgt = s.targets[0] if isinstance(s, ast.Assign) else s.target
+        if isinstance(s, ast.Assign) and len(s.targets) != 1:
+            die(s, 'multiple targets')
+        if isinstance(tgt, ast.Subscript) and isinstance(tgt.value, ast.Name):     # D[k] = v
+            d = tgt.value.id
+
+            def kd(td, tyd):
+                return tr(ctx, tgt.slice, lambda tk, tyk: tr(ctx, s.value, lambda tv, tyv:
+                          upd(td, tyd, tk, tyk, tv, tyv)))
+
+            def upd(td, tyd, tk, tyk, tv, tyv):
+                if (tyd, tyk, tyv) != ('dict', 'N', 'pat'):
+                    die(s, 'dict update')
+                v = ctx.fresh('v')
+                ctx.env[d] = (v, 'dict')
+                return f'(let {v} := aset {tk} {tv} {td} in {after(ctx)})'
+            return tr(ctx, tgt.value, kd)
+        if not isinstance(tgt, ast.Name):
+            die(s, 'assignment target')
+
+        def ka(t, ty):
+            v = ctx.fresh('v')
+            ctx.env[tgt.id] = (v, ty)
+            ctx.refined.pop(tgt.id, None)
+            return f'(let {v} := {t} in {after(ctx)})'
+        return tr(ctx, s.value, ka)
+    if isinstance(s, ast.If):
+        test = s.test
+        # isinstance(x, C): case analysis on the constructor, fields bound
+        if (isinstance(test, ast.Call) and isinstance(test.func, ast.Name) and test.func.id == 'isinstance' and len(test.args) == 2
+                and isinstance(test.args[0], ast.Name) and isinstance(test.args[1], ast.Name) and test.args[1].id in CTORS):
+            x, cls = test.args[0].id, test.args[1].id
+            if x not in ctx.env or ctx.env[x][1] != 'pat' or s.orelse:
+                die(s, 'isinstance test')
+            c1 = ctx.copy()
+            c1.refined[x] = cls
+            pat = ' '.join([CTORS[cls][0]] + ['s_' + f for f in CTORS[cls][1]])
+            a = fblock(c1, s.body, after)
+            b = after(ctx)
+            return f'(match {ctx.env[x][0]} with | {pat} => {a} | _ => {b} end)'
+        w = walrus_tests(test)
+        if w is not None:
+            if s.orelse:
+                die(s, 'else after a walrus test')
+            rk = ctx.fresh('rest')
+            els = after(ctx.copy())
+            c1 = ctx.copy()
+
+            def chain(i):
+                if i == len(w):
+                    return fblock(c1, s.body, after)
+                name, val = w[i]
+
+                def kw(t, ty):
+                    if ty not in UNOPT:
+                        die(val, f'truth value of {ty}')
+                    v = c1.fresh('w')
+                    c1.env[name] = (v, UNOPT[ty])
+                    return f'(match {t} with | Some {v} => {chain(i + 1)} | None => {rk} end)'
+                return tr(c1, val, kw)
+            body = chain(0)
+            ctx.n = max(ctx.n, c1.n)
+            return f'(let {rk} := {els} in {body})'
+        nt = none_tests(test)
+        if nt is not None:
+            if s.orelse:
+                die(s, 'else after an `is not None` test')
+            rk = ctx.fresh('rest')
+            els = after(ctx.copy())
+            c1 = ctx.copy()
+            inner = None
+            binds = []
+            for name in nt:
+                if name not in c1.env or c1.env[name][1] not in UNOPT:
+                    die(test, f'`is not None` on {name}')
+                t, ty = c1.env[name]
+                v = c1.fresh('w')
+                binds.append((t, v))
+                c1.env[name] = (v, UNOPT[ty])
+            inner = fblock(c1, s.body, after)
+            for t, v in reversed(binds):
+                inner = f'(match {t} with | Some {v} => {inner} | None => {rk} end)'
+            ctx.n = max(ctx.n, c1.n)
+            return f'(let {rk} := {els} in {inner})'
+        # X is None
+        if (isinstance(test, ast.Compare) and len(test.ops) == 1 and isinstance(test.ops[0], ast.Is) and isinstance(test.left, ast.Name)
+                and isinstance(test.comparators[0], ast.Constant) and test.comparators[0].value is None):
+            name = test.left.id
+            if name not in ctx.env or ctx.env[name][1] not in UNOPT or s.orelse:
+                die(s, '`is None` test')
+            t, ty = ctx.env[name]
+            a = fblock(ctx.copy(), s.body, after)
+            c2 = ctx.copy()
+            v = c2.fresh('w')
+            c2.env[name] = (v, UNOPT[ty])
+            b = after(c2)
+            ctx.n = max(ctx.n, c2.n)
+            return f'(match {t} with | None => {a} | Some {v} => {b} end)'
+
+        def kt(t, ty):
+            if ty != 'bool':
+                die(test, f'condition of type {ty}')
+            a = fblock(ctx.copy(), s.body, after)
+            b = fblock(ctx.copy(), s.orelse, after) if s.orelse else after(ctx.copy())
+            return f'(if {t} then {a} else {b})'
+        return tr(ctx, test, kt)
+    if isinstance(s, ast.For):
+        # for a, b in <list parameter>: body   -- a local structural loop; the loop state = the dict variables assigned in the body
+        if not (isinstance(s.target, ast.Tuple) and len(s.target.elts) == 2 and all(isinstance(x, ast.Name) for x in s.target.elts)
+                and isinstance(s.iter, ast.Name) and s.iter.id in ctx.env and ctx.env[s.iter.id][1] == 'eqs' and not s.orelse):
+            die(s, 'loop shape')
+        assigned = sorted({t.id for n in ast.walk(s) if isinstance(n, ast.Assign) for t in n.targets if isinstance(t, ast.Name)
+                           and t.id in ctx.env and ctx.env[t.id][1] == 'dict'})
+        if len(assigned) != 1:
+            die(s, 'loop state must be one dict variable')
+        st = assigned[0]
+        c1 = ctx.copy()
+        e, sv = c1.fresh('e'), c1.fresh('st')
+        c1.env[s.target.elts[0].id] = (f'(fst {e})', 'pat')
+        c1.env[s.target.elts[1].id] = (f'(snd {e})', 'pat')
+        c1.env[st] = (sv, 'dict')
+        body = fblock(c1, s.body, lambda c: f'loop t {c.env[st][0]}')
+        c3 = ctx.copy()
+        c3.n = c1.n
+        c3.env[st] = (sv, 'dict')
+        done = after(c3)
+        ctx.n = c3.n
+        return (f'((fix loop (l:list (ppat*ppat)) ({sv}:delta) {{struct l}} : option (option delta) := '
+                f'match l with | [] => {done} | {e} :: t => {body} end) {ctx.env[s.iter.id][0]} {ctx.env[st][0]})')
+    die(s, 'statement')
+
+
+def gen_matching(tree, classes):
+    fns = {f.name: f for f in tree.body if isinstance(f, ast.FunctionDef)}
+    out = []
+    f = fns.get('match_single')
+    if f is None or [a.arg for a in f.args.args] != ['pattern', 'instance', 'extend'] or len(f.args.defaults) != 1 \
+            or not (isinstance(f.args.defaults[0], ast.Constant) and f.args.defaults[0].value is None) or f.decorator_list:
+        raise SystemExit('pypattern translator: match_single: unexpected signature / decorators')
+    ctx = Ctx(None, classes, True)
+    ctx.env = {'pattern': ('a_pattern', 'pat'), 'instance': ('a_instance', 'pat'), 'extend': ('a_extend', 'dict')}
+    body = fblock(ctx, strip_doc(f.body), None)
+    out.append('(* match_single(pattern, instance, extend): extend=None and extend={} are both the empty seed; Python None = inner None *)\n'
+               'Fixpoint src_match_single (n:nat) (a_pattern a_instance:ppat) (a_extend:delta) {struct n} : option (option delta) :=\n'
+               f'  match n with O => None | S n =>\n  {body}\n  end.\n')
+    f = fns.get('match')
+    if f is None or [a.arg for a in f.args.args] != ['equations'] or f.args.defaults or f.decorator_list:
+        raise SystemExit('pypattern translator: match: unexpected signature / decorators')
+    ctx = Ctx(None, classes, True)
+    ctx.env = {'equations': ('a_equations', 'eqs')}
+    body = fblock(ctx, strip_doc(f.body), None)
+    out.append('(* match(equations) *)\nDefinition src_match (n:nat) (a_equations:list (ppat*ppat)) : option (option delta) :=\n'
+               f'  {body}.\n')
+    return out
+
+
 # ---- driver ---------------------------------------------------------------------------------------------------------
 
 def methods_of(tree):
@@ -534,6 +822,7 @@ def generate(repo):
                '  match n with O => None | S n =>\n  match self with')
     out += [arm(c, classes, 'evar_is_free') for c in order]
     out.append('  end end.\n')
+    out += gen_matching(tree, classes)
     # the three rules of BasicInterpreter
     btree = ast.parse(open(os.path.join(src, 'basic_interpreter.py')).read())
     bcls = methods_of(btree).get('BasicInterpreter')
